@@ -1354,6 +1354,10 @@ class Body:
         out = []
         src = self._discr_source(t["discr"], bb, 0)
         arms = t["arms"]
+        if src[0] == "discr" and self._is_drop_ladder(bb, src[1]["place"]):
+            # destructor dispatch generated by drop elaboration for a partially moved enum (`match x.field { A(v) => .., B(w) => .. }`
+            # by value): it selects which variant's fields are still to be dropped, it is not a decision of the program
+            return [(j, ("unknown",)) for j in range(len(self.succ[bb]))]
         for j, (tb, lab) in enumerate(self.succ[bb]):
             if src[0] == "discr":
                 rv = src[1]
@@ -1400,6 +1404,30 @@ class Body:
             else:
                 out.append((j, ("unknown",)))
         return out
+
+    def _is_drop_ladder(self, bb, place):
+        """Every arm of the discriminant switch at bb either goes straight to one common block J or passes through one
+        statement-free block that only drops (part of) the switched place and continues at J."""
+        targets = [tb for (tb, _l) in self.succ[bb]]
+        if len(targets) < 2:
+            return False
+        def through(tb):
+            blk = self.blocks[tb]
+            t = blk["term"]
+            if t and t["k"] == "drop" and not blk["stmts"] and t["place"]["l"] == place["l"] and \
+                    [e for e in t["place"]["p"]][:len(place["p"])] == list(place["p"]) and t.get("target") is not None:
+                return t["target"]
+            return None
+        ends = set()
+        n_drop = 0
+        for tb in targets:
+            th = through(tb)
+            if th is not None:
+                n_drop += 1
+                ends.add(th)
+            else:
+                ends.add(tb)
+        return n_drop >= 1 and len(ends) == 1
 
     def _discr_source(self, op, bb, depth):
         c = op_const(op)
